@@ -131,6 +131,8 @@ type Trial struct {
 	stalled atomic.Bool
 	loaderV atomic.Int64
 	loads   atomic.Int64
+	statSamples  atomic.Int64
+	statDecrease atomic.Pointer[string]
 }
 
 func (t *Trial) now() int64 { return int64(time.Since(t.base)) }
@@ -494,6 +496,25 @@ func (t *Trial) Run() {
 			defer cwg.Done()
 			<-start
 			t.churn(&stop, core.NewRng(core.Derive(cfg.Seed, 18)))
+		}()
+	}
+	if cfg.Stats {
+		cwg.Add(1)
+		go func() {
+			defer cwg.Done()
+			<-start
+			prev := t.Cache.Stats()
+			for !stop.Load() {
+				cur := t.Cache.Stats()
+				t.statSamples.Add(1)
+				if cur.Hits < prev.Hits || cur.Misses < prev.Misses || cur.Evictions < prev.Evictions || cur.EvictionWeight < prev.EvictionWeight ||
+					cur.LoadSuccesses < prev.LoadSuccesses || cur.LoadFailures < prev.LoadFailures || cur.TotalLoadTime < prev.TotalLoadTime {
+					msg := fmt.Sprintf("a statistics counter decreased: %+v then %+v", prev, cur)
+					t.statDecrease.CompareAndSwap(nil, &msg)
+				}
+				prev = cur
+				runtime.Gosched()
+			}
 		}()
 	}
 	close(start)
